@@ -1,2 +1,921 @@
-// stub created by the lead so that the workspace always loads; replace it with the check
-fn main() {}
+//! C09 — NSEC3 denial of existence is sound, complete and iteration-bounded.
+//!
+//! E-ENUM over the small zone universe (DESIGN 5.1), every zone signed by the REAL server code
+//! (`secure_zone_mut` -> `nsec3_zone`) with (iterations, salt) in {(0,-),(1,ab)} and, for zones
+//! with an insecure delegation, opt-out on as well as off.
+//!
+//! * Decision level (hook `hickory_net::dnssec::verif::verify_nsec3`): every query (qname in and
+//!   around the zone x qtype in {A,TXT,DS,NS,CNAME}) x claim {NXDOMAIN, NODATA (incl. the
+//!   opt-out "no DS" case), expansion of each published wildcard RRset with its genuine RRSIG}
+//!   x soa variant {apex, absent} x EVERY non-empty subset of the zone's genuine NSEC3 records
+//!   (zones with more than 7 records: every subset of size <= 3).
+//!   Oracle: `Secure` => the claim is TRUE in the published zone (`vref::denial::truth`; an
+//!   insecure delegation hidden by opt-out EXISTS) — clause `unsound`; and `Secure` => the subset is
+//!   the RFC 5155 section 8 proof for the claim, with opt-out carrying the verdict only for DS
+//!   (`vref::denial::nsec3_proves`) — clause `unentailed`. Both reference layers are cross-checked.
+//! * Parameter mixtures: subsets mixing records of the same zone signed under two parameter sets
+//!   must never be Secure. Wrong-zone owners: the same records re-owned below another name.
+//! * Iteration limits as configuration: zones with iterations 0..3 x (soft, hard) in
+//!   {(1,2),(0,0),(2,2)}: iterations > soft => never Secure; iterations > hard => Bogus.
+//! * Completeness and binding end to end through the real `DnssecDnsHandle`, as in C08.
+//! * The NSEC3 chain of the real signer is compared with the chain RFC 5155 7.1 prescribes.
+
+use std::cell::RefCell;
+use std::collections::{BTreeMap, BTreeSet, HashMap};
+use std::sync::atomic::{AtomicU64, Ordering};
+use std::sync::Arc;
+
+use hickory_net::dnssec::verif::verify_nsec3;
+use hickory_proto::dnssec::rdata::NSEC3;
+use hickory_proto::dnssec::Proof;
+use hickory_proto::op::{Message, MessageType, OpCode, Query, ResponseCode};
+use hickory_proto::rr::{Name as HName, Record, RecordType};
+use serde_json::{json, Value};
+use vcore::{fnv_str, Ctx, Local};
+use vref::denial::{self as dn, Claim, Nsec3Rec, Proof3, N3};
+use vref::zone::{self as rz, Name, NoDataKind, Step, Zone};
+use vzone::{Built, E2e, Kind, Signing, Upstream, ZoneSpec};
+
+const QTYPES: [u16; 5] = [rz::T_A, rz::T_TXT, rz::T_DS, rz::T_NS, rz::T_CNAME];
+const BIND_SLICE: u64 = 64;
+const SOFT: u16 = 100;
+const HARD: u16 = 500;
+
+struct World {
+    spec: ZoneSpec,
+    signing: Signing,
+    built: Built,
+    rz: Zone,
+    origin: HName,
+    apex: Name,
+    /// genuine NSEC3 records: (owner, rdata, abstract form)
+    recs: Vec<(HName, NSEC3, Nsec3Rec)>,
+    qnames: Vec<String>,
+    text: String,
+    hashes: RefCell<HashMap<Name, Vec<u8>>>,
+    salt: Vec<u8>,
+    iterations: u16,
+}
+
+fn params(s: &Signing) -> (Vec<u8>, u16, bool) {
+    match s {
+        Signing::Nsec3 { iterations, salt, opt_out } => (salt.clone(), *iterations, *opt_out),
+        _ => (vec![], 0, false),
+    }
+}
+
+fn build_world(spec: &ZoneSpec, signing: &Signing) -> Result<World, String> {
+    let built = vzone::build(spec, signing)?;
+    let origin = vzone::hname(&spec.origin);
+    let mut recs = vec![];
+    for (owner, n) in built.nsec3s() {
+        let abs = vzone::ref_nsec3(&origin, &owner, &n).ok_or("NSEC3 owner label is not base32hex")?;
+        recs.push((owner, n, abs));
+    }
+    let mut r = spec.reference();
+    r.add(&r.origin.clone(), rz::T_DNSKEY, rz::RData::Other("dnskey".into()));
+    let (salt, iterations, _) = params(signing);
+    Ok(World {
+        spec: spec.clone(),
+        signing: signing.clone(),
+        built,
+        apex: r.origin.clone(),
+        rz: r,
+        origin,
+        recs,
+        qnames: spec.query_names(3),
+        text: format!("{spec} [{}]", signing.tag()),
+        hashes: RefCell::new(HashMap::new()),
+        salt,
+        iterations,
+    })
+}
+
+impl World {
+    fn hash(&self, n: &Name) -> Vec<u8> {
+        if let Some(h) = self.hashes.borrow().get(n) {
+            return h.clone();
+        }
+        let h = dn::nsec3_hash(n, &self.salt, self.iterations);
+        self.hashes.borrow_mut().insert(n.clone(), h.clone());
+        h
+    }
+    fn anchors(&self) -> Arc<hickory_proto::dnssec::TrustAnchors> {
+        vzone::anchors(&[self.spec.origin.as_str()])
+    }
+    fn claims(&self, qname: &Name, qtype: u16) -> Vec<Claim> {
+        let mut v = vec![Claim::NxDomain, Claim::NoData];
+        for (owner, types) in &self.rz.nodes {
+            if !owner.is_wildcard() || !qname.strictly_below(&owner.parent()) {
+                continue;
+            }
+            for t in types.keys() {
+                if *t == qtype || (*t == rz::T_CNAME && qtype != rz::T_CNAME) {
+                    v.push(Claim::Wildcard { source: owner.clone(), rtype: *t });
+                }
+            }
+        }
+        v
+    }
+    fn expanded_answer(&self, claim: &Claim, qname: &HName, mark_secure: bool) -> Vec<Record> {
+        let Claim::Wildcard { source, rtype } = claim else { return vec![] };
+        let w = vzone::hname(&source.to_string());
+        let mut v = self.built.rrset_with_sigs(&w, RecordType::from(*rtype));
+        for r in v.iter_mut() {
+            r.name = qname.clone();
+            r.proof = if mark_secure { Proof::Secure } else { Proof::default() };
+        }
+        v
+    }
+    /// The subsets to enumerate: all non-empty ones up to 7 records, else all of size <= 3.
+    fn masks(&self) -> Vec<u32> {
+        let n = self.recs.len();
+        if n <= 7 {
+            (1u32..(1 << n)).collect()
+        } else {
+            (1u32..(1 << n)).filter(|m| m.count_ones() <= 3).collect()
+        }
+    }
+}
+
+fn rcode_of(claim: &Claim) -> ResponseCode {
+    match claim {
+        Claim::NxDomain => ResponseCode::NXDomain,
+        _ => ResponseCode::NoError,
+    }
+}
+
+fn claim_json(c: &Claim) -> Value {
+    match c {
+        Claim::NxDomain => json!({"kind": "NXDOMAIN"}),
+        Claim::NoData => json!({"kind": "NODATA"}),
+        Claim::Wildcard { source, rtype } => json!({"kind": "WILDCARD", "source": source.to_string(), "rtype": rtype}),
+    }
+}
+
+fn claim_from_json(v: &Value) -> Claim {
+    match v["kind"].as_str() {
+        Some("NXDOMAIN") => Claim::NxDomain,
+        Some("WILDCARD") => Claim::Wildcard { source: Name::parse(v["source"].as_str().unwrap_or("*.z.")), rtype: v["rtype"].as_u64().unwrap_or(1) as u16 },
+        _ => Claim::NoData,
+    }
+}
+
+// ------------------------------------------------------------------------------------------
+// scenes
+
+/// The PRIMARY abstract mechanism by which the accepted NSEC3 set misleads the validator:
+///  optout-cover = the set IS the RFC 5155 proof, but the record covering the next closer name has
+///                 the Opt-Out flag, which may carry a Secure verdict only for DS (RFC 5155 9.2);
+///  anc-deleg    = the record matching the name (or the closest encloser) is a delegation NSEC3
+///                 (NS set, SOA clear), RFC 6840 4.1 / RFC 5155 8.3;
+///  name-matched = a record matching the query name is in the set although the claim needs the
+///                 name not to exist (wildcard expansion for an existing name);
+///  wrap-record-covers-all = the last record of the chain (hash > next hash) is in the set: the
+///                 wrap-around branch of find_covering_record is true for every target;
+///  optout-covers-qname = an Opt-Out record covers the query name itself;
+///  apex-without-matching-record = NODATA for the apex without any record matching the apex;
+///  nosoa        = no SOA in the response;
+///  star         = the query name has a `*` label;
+///  plain        = none of these.
+fn mechanism(world: &World, sub: &[&Nsec3Rec], qname: &Name, claim: &Claim, soa: &Option<HName>, proves: Proof3) -> &'static str {
+    if proves == Proof3::OptOut {
+        return "optout-cover";
+    }
+    // find_covering_record's wrap-around branch (`owner > target || target > next`) is true for
+    // EVERY target: the last record of the chain (hash > next hash) "covers" any name
+    if sub.iter().any(|r| r.hash >= r.next) {
+        return "wrap-record-covers-all";
+    }
+    let hasher = |n: &Name| world.hash(n);
+    let cx = N3 { recs: sub, hasher: &hasher };
+    let is_deleg = |r: &Nsec3Rec| r.types.contains(&rz::T_NS) && !r.types.contains(&rz::T_SOA);
+    let mut p = qname.clone();
+    loop {
+        if cx.matching(&p).map(is_deleg).unwrap_or(false) {
+            return "anc-deleg";
+        }
+        if !p.strictly_below(&world.apex) {
+            break;
+        }
+        p = p.parent();
+    }
+    if matches!(claim, Claim::Wildcard { .. }) && cx.matching(qname).is_some() {
+        return "name-matched";
+    }
+    if sub.iter().any(|r| r.opt_out) && cx.covering(qname).map(|r| r.opt_out).unwrap_or(false) {
+        return "optout-covers-qname";
+    }
+    if *qname == world.apex && matches!(claim, Claim::NoData) && cx.matching(qname).is_none() {
+        // validate_nodata_response: `(None, None, None) if query name == SOA name => Secure`
+        return "apex-without-matching-record";
+    }
+    if soa.is_none() {
+        return "nosoa";
+    }
+    if qname.0.iter().any(|l| l.as_slice() == b"*") {
+        return "star";
+    }
+    "plain"
+}
+
+fn describe(world: &World, mask: u32) -> Vec<String> {
+    // reverse map hash -> name for the names of the zone (incl. ENTs and wildcards at ancestors)
+    let mut known: Vec<Name> = world.rz.nodes.keys().cloned().collect();
+    for k in known.clone() {
+        let mut p = k.parent();
+        while p.strictly_below(&world.apex) {
+            known.push(p.clone());
+            p = p.parent();
+        }
+    }
+    (0..world.recs.len())
+        .filter(|i| mask >> i & 1 == 1)
+        .map(|i| {
+            let r = &world.recs[i].2;
+            let owner = known.iter().find(|n| world.hash(n) == r.hash).map(|n| n.to_string()).unwrap_or("?".into());
+            let next = known.iter().find(|n| world.hash(n) == r.next).map(|n| n.to_string()).unwrap_or("?".into());
+            format!(
+                "H({owner})={} -> H({next}) {:?}{}",
+                &dn::base32hex(&r.hash)[..8],
+                r.types.iter().map(|t| rz::type_name(*t)).collect::<Vec<_>>(),
+                if r.opt_out { " OPT-OUT" } else { "" }
+            )
+        })
+        .collect()
+}
+
+// ------------------------------------------------------------------------------------------
+// end to end
+
+fn dnskey_response(w: &World) -> Message {
+    let mut m = Message::new(0, MessageType::Response, OpCode::Query);
+    m.add_query(Query::new(w.origin.clone(), RecordType::DNSKEY));
+    m.metadata.authoritative = true;
+    m.add_answers(w.built.rrset_with_sigs(&w.origin, RecordType::DNSKEY));
+    m
+}
+
+fn e2e_case(world: &World, rt: &tokio::runtime::Runtime, query: &Query, soa: &Option<HName>, claim: &Claim, mask: u32, limits: Option<(u16, u16)>) -> E2e {
+    let mut m = Message::new(0, MessageType::Response, OpCode::Query);
+    m.add_query(query.clone());
+    m.metadata.response_code = rcode_of(claim);
+    m.metadata.authoritative = true;
+    m.add_answers(world.expanded_answer(claim, &query.name, false));
+    if soa.is_some() {
+        m.add_authorities(world.built.rrset_with_sigs(&world.origin, RecordType::SOA));
+    }
+    for i in 0..world.recs.len() {
+        if mask >> i & 1 == 1 {
+            m.add_authorities(world.built.rrset_with_sigs(&world.recs[i].0, RecordType::NSEC3));
+        }
+    }
+    let key = dnskey_response(world);
+    let origin = world.origin.clone();
+    let main = query.clone();
+    let up = Upstream::new(move |q: &Query| {
+        if q.query_type == RecordType::DNSKEY && q.name == origin {
+            return Some(key.clone());
+        }
+        if q.name == main.name && q.query_type == main.query_type {
+            return Some(m.clone());
+        }
+        None
+    });
+    vzone::validate(rt, up, world.anchors(), query.clone(), limits)
+}
+
+fn e2e_agrees(hook: Proof, e: &E2e) -> bool {
+    match hook {
+        Proof::Secure => e.is_secure(),
+        Proof::Bogus => matches!(e, E2e::NsecRejected(Proof::Bogus)),
+        Proof::Insecure => matches!(e, E2e::NsecRejected(Proof::Insecure)),
+        Proof::Indeterminate => matches!(e, E2e::NsecRejected(Proof::Indeterminate)),
+    }
+}
+
+// ------------------------------------------------------------------------------------------
+// decision level
+
+struct Counters {
+    bound: AtomicU64,
+}
+
+fn case_json(world: &World, qname: &str, qtype: u16, claim: &Claim, soa: &Option<HName>, mask: u32) -> Value {
+    json!({
+        "level": "decision",
+        "zone": world.spec.to_json(), "signing": world.signing.tag(), "world": world.text,
+        "qname": qname, "qtype": qtype, "qtype_name": rz::type_name(qtype),
+        "claim": claim_json(claim),
+        "soa": soa.as_ref().map(|n| n.to_string()),
+        "mask": mask,
+        "nsec3s": describe(world, mask),
+    })
+}
+
+#[allow(clippy::too_many_arguments)]
+fn run_claim(
+    world: &World,
+    qname_s: &str,
+    qtype: u16,
+    claim: &Claim,
+    only: Option<(Option<HName>, u32)>,
+    masks: &[u32],
+    rt: &tokio::runtime::Runtime,
+    l: &mut Local,
+    cnt: &Counters,
+) {
+    let qname = Name::parse(qname_s);
+    let hq = vzone::hname(qname_s);
+    let query = Query::new(hq.clone(), RecordType::from(qtype));
+    let zones = [world.rz.clone()];
+    let tr = dn::truth(&zones, &qname, qtype, claim);
+    let answers = world.expanded_answer(claim, &hq, true);
+    let rcode = rcode_of(claim);
+    let n = world.recs.len();
+    let no_parent = |_: &Name| false;
+    let hasher = |x: &Name| world.hash(x);
+    let case_id = format!("{}|{qname_s}|{qtype}|{claim:?}", world.text);
+    for soa in [Some(world.origin.clone()), None] {
+        if let Some((s, _)) = &only {
+            if *s != soa {
+                continue;
+            }
+        }
+        let mut secure_masks: Vec<u32> = vec![];
+        for &mask in masks {
+            if let Some((_, m)) = &only {
+                if *m != mask {
+                    continue;
+                }
+            }
+            let sub: Vec<(&HName, &NSEC3)> = (0..n).filter(|i| mask >> i & 1 == 1).map(|i| (&world.recs[i].0, &world.recs[i].1)).collect();
+            let abs: Vec<&Nsec3Rec> = (0..n).filter(|i| mask >> i & 1 == 1).map(|i| &world.recs[i].2).collect();
+            l.eval();
+            let verdict = match vcore::catch(|| verify_nsec3(&query, soa.as_ref(), rcode, &answers, &sub, SOFT, HARD)) {
+                Ok(v) => v,
+                Err(p) => {
+                    l.violation(&format!("panic:{}", vcore::short_loc(&p.loc)), &p.msg, || case_json(world, qname_s, qtype, claim, &soa, mask));
+                    continue;
+                }
+            };
+            let proves = dn::nsec3_proves_with(&abs, &world.apex, &qname, qtype, claim, &no_parent, &hasher);
+            if proves == Proof3::Yes && tr.is_err() {
+                eprintln!(
+                    "REFERENCE-INCONSISTENT: nsec3_proves accepts a claim that is false ({}): {}",
+                    tr.unwrap_err(),
+                    case_json(world, qname_s, qtype, claim, &soa, mask)
+                );
+                l.outcome("reference-inconsistent");
+                continue;
+            }
+            let secure = verdict == Proof::Secure;
+            l.outcome(&format!("verdict:{}:{}:{}", claim.tag(), format!("{verdict:?}").to_lowercase(), if tr.is_ok() { "true-claim" } else { "false-claim" }));
+            if tr.is_err() || (proves != Proof3::No && mask.count_ones() >= 2) {
+                l.nontrivial(fnv_str(&format!("{case_id}|{soa:?}|{mask}")));
+            }
+            if proves == Proof3::Yes && !secure && soa.is_some() {
+                l.outcome(&format!("obs:valid-proof-not-accepted:{}", claim.tag()));
+            }
+            let slice = fnv_str(&format!("{case_id}|{soa:?}|{mask}")) % BIND_SLICE == 0;
+            let mut bad_key: Option<(String, String)> = None;
+            if secure {
+                let minimal = !secure_masks.iter().any(|m| m & mask == *m);
+                secure_masks.push(mask);
+                if let Err(why) = &tr {
+                    if minimal {
+                        bad_key = Some((
+                            format!("unsound:{}:{why}:{}", claim.tag(), mechanism(world, &abs, &qname, claim, &soa, proves)),
+                            format!("{} for {qname_s} {} accepted as Secure but the claim is false in the zone ({why})", claim.tag(), rz::type_name(qtype)),
+                        ));
+                    } else {
+                        l.outcome("unsound:superset-of-minimal");
+                    }
+                } else if proves != Proof3::Yes {
+                    if minimal {
+                        bad_key = Some((
+                            format!("unentailed:{}:{}", claim.tag(), mechanism(world, &abs, &qname, claim, &soa, proves)),
+                            format!(
+                                "{} for {qname_s} {} accepted as Secure; the claim happens to be true but these NSEC3s are not the RFC 5155 section 8 proof for it{}",
+                                claim.tag(),
+                                rz::type_name(qtype),
+                                if proves == Proof3::OptOut { " (the next-closer cover has the Opt-Out flag)" } else { "" }
+                            ),
+                        ));
+                    } else {
+                        l.outcome("unentailed:superset-of-minimal");
+                    }
+                }
+            }
+            if bad_key.is_some() || slice || only.is_some() {
+                let e = e2e_case(world, rt, &query, &soa, claim, mask, None);
+                cnt.bound.fetch_add(1, Ordering::Relaxed);
+                if !e2e_agrees(verdict, &e) {
+                    l.violation(
+                        &format!("binding:hook={}:e2e={}", format!("{verdict:?}").to_lowercase(), e.class()),
+                        "the decision-level verdict and the verdict of the real DnssecDnsHandle on the same records differ",
+                        || case_json(world, qname_s, qtype, claim, &soa, mask),
+                    );
+                } else {
+                    l.outcome(&format!("bound:{}", e.class()));
+                }
+            }
+            if let Some((key, what)) = bad_key {
+                l.violation(&key, &what, || case_json(world, qname_s, qtype, claim, &soa, mask));
+            }
+        }
+    }
+}
+
+// ------------------------------------------------------------------------------------------
+// chain
+
+fn check_chain(world: &World, l: &mut Local) {
+    let (salt, iterations, opt_out) = params(&world.signing);
+    let strip = |t: &BTreeSet<u16>| -> BTreeSet<u16> { t.iter().copied().filter(|x| *x != rz::T_RRSIG).collect() };
+    let want = dn::nsec3_chain(&world.rz, &salt, iterations, opt_out);
+    let mut got: Vec<&Nsec3Rec> = world.recs.iter().map(|r| &r.2).collect();
+    got.sort_by(|a, b| a.hash.cmp(&b.hash));
+    let same = want.len() == got.len()
+        && want.iter().zip(got.iter()).all(|(w, g)| w.hash == g.hash && w.next == g.next && strip(&w.types) == strip(&g.types) && w.opt_out == g.opt_out && w.salt == g.salt && w.iterations == g.iterations);
+    if same {
+        l.outcome("chain:as-rfc5155");
+        return;
+    }
+    let wo: BTreeSet<&Vec<u8>> = want.iter().map(|r| &r.hash).collect();
+    let go: BTreeSet<&Vec<u8>> = got.iter().map(|r| &r.hash).collect();
+    let key = if wo != go {
+        // which names are missing from the real chain?
+        let mut kinds: BTreeSet<&str> = BTreeSet::new();
+        let mut names: Vec<Name> = world.rz.nodes.keys().cloned().collect();
+        for k in names.clone() {
+            let mut p = k.parent();
+            while p.strictly_below(&world.apex) {
+                names.push(p.clone());
+                p = p.parent();
+            }
+        }
+        for h in wo.difference(&go) {
+            let n = names.iter().find(|n| &world.hash(n) == *h);
+            kinds.insert(match n {
+                Some(n) if world.rz.status(n) == rz::NodeStatus::Ent && n.is_wildcard() => "ent-with-star-label",
+                Some(n) if world.rz.status(n) == rz::NodeStatus::Ent => "ent",
+                Some(n) if world.rz.is_cut(n) => "delegation",
+                Some(_) => "data",
+                None => "?",
+            });
+        }
+        format!("chain:owners-differ:missing=[{}]:extra={}", kinds.into_iter().collect::<Vec<_>>().join(","), go.difference(&wo).count().min(1))
+    } else if want.iter().zip(got.iter()).any(|(w, g)| w.next != g.next) {
+        "chain:order-differs".to_string()
+    } else if want.iter().zip(got.iter()).any(|(w, g)| w.opt_out != g.opt_out || w.salt != g.salt || w.iterations != g.iterations) {
+        "chain:parameters-differ".to_string()
+    } else {
+        let mut kinds = BTreeSet::new();
+        for (w, g) in want.iter().zip(got.iter()) {
+            for t in strip(&w.types).symmetric_difference(&strip(&g.types)) {
+                kinds.insert(format!("{}{}", if w.types.contains(t) { "-" } else { "+" }, rz::type_name(*t)));
+            }
+        }
+        format!("chain:bitmap-differs:{}", kinds.into_iter().collect::<Vec<_>>().join(","))
+    };
+    l.violation(&key, "the NSEC3 chain produced by the real signer differs from RFC 5155 7.1", || {
+        json!({"level": "chain", "zone": world.spec.to_json(), "signing": world.signing.tag(),
+               "expected": want.iter().map(|r| format!("{} -> {} {:?}", dn::base32hex(&r.hash), dn::base32hex(&r.next), r.types)).collect::<Vec<_>>(),
+               "got": got.iter().map(|r| format!("{} -> {} {:?}", dn::base32hex(&r.hash), dn::base32hex(&r.next), r.types)).collect::<Vec<_>>()})
+    });
+}
+
+// ------------------------------------------------------------------------------------------
+// completeness
+
+fn ref_class(s: &Step, qname: &Name, qtype: u16, zone: &Zone) -> Option<String> {
+    match s {
+        Step::NxDomain { .. } => Some("NXDOMAIN".into()),
+        Step::NoData(NoDataKind::OtherData) => {
+            if qtype == rz::T_DS && zone.is_cut(qname) {
+                Some("NODATA-ds-at-delegation".into())
+            } else {
+                Some("NODATA-other".into())
+            }
+        }
+        Step::NoData(NoDataKind::Ent) => Some("NODATA-ent".into()),
+        Step::NoData(NoDataKind::Wildcard { .. }) => Some("NODATA-wild".into()),
+        Step::NoData(NoDataKind::WildcardEnt { .. }) => Some("NODATA-wildent".into()),
+        Step::Data { source, .. } if source != qname => Some("WILDCARD".into()),
+        Step::Cname { source, .. } if source != qname => Some("WILDCARD-CNAME".into()),
+        _ => None,
+    }
+}
+
+fn completeness(world: &World, rt: &tokio::runtime::Runtime, l: &mut Local, only: Option<(&str, u16)>) {
+    let zone = &world.rz;
+    let mut table: HashMap<(HName, RecordType), Message> = HashMap::new();
+    let mut todo: Vec<(String, u16, String)> = vec![];
+    for qn in &world.qnames {
+        let name = Name::parse(qn);
+        if !name.at_or_below(&zone.origin) {
+            continue;
+        }
+        for t in QTYPES {
+            if let Some((oq, ot)) = only {
+                if oq != qn || ot != t {
+                    continue;
+                }
+            }
+            let Ok(m) = vzone::ask(rt, &world.built.catalog, qn, t, true) else {
+                l.violation("completeness:no-response", "the server gave no single decodable response", || json!({"level": "completeness", "zone": world.spec.to_json(), "signing": world.signing.tag(), "qname": qn, "qtype": t}));
+                continue;
+            };
+            let s = rz::step(zone, &name, t);
+            let (_, _, opt_out) = params(&world.signing);
+            if opt_out && matches!(s, Step::NoData(NoDataKind::Ent)) && zone.nodes.keys().filter(|k| k.strictly_below(&name)).all(|k| zone.cut_on_path(k).map(|c| !zone.has(&c, rz::T_DS)).unwrap_or(false)) {
+                // an empty non-terminal that exists only because of opted-out insecure delegations has
+                // no NSEC3 at all; RFC 5155 (erratum 3441) has no NODATA proof for it: not judged
+                l.outcome("completeness:skipped-optout-only-ent");
+                table.insert((vzone::hname(qn), RecordType::from(t)), m);
+                continue;
+            }
+            if let Some(class) = ref_class(&s, &name, t, zone) {
+                let shape_ok = match &s {
+                    Step::NxDomain { .. } => m.metadata.response_code == ResponseCode::NXDomain && m.answers.is_empty(),
+                    Step::NoData(_) => m.metadata.response_code == ResponseCode::NoError && m.answers.is_empty(),
+                    Step::Data { rdata, .. } => {
+                        m.metadata.response_code == ResponseCode::NoError && {
+                            let got: BTreeSet<rz::RData> = m.answers.iter().filter(|r| u16::from(r.record_type()) == t).map(|r| vzone::ref_rr(r).rdata).collect();
+                            got == *rdata
+                        }
+                    }
+                    Step::Cname { target, .. } => {
+                        m.metadata.response_code == ResponseCode::NoError
+                            && m.answers.iter().any(|r| r.name == vzone::hname(qn) && vzone::ref_rr(r).rdata == rz::RData::Cname(target.clone()))
+                    }
+                    _ => false,
+                };
+                if shape_ok {
+                    todo.push((qn.clone(), t, class));
+                } else {
+                    l.outcome("completeness:skipped-c10-deviation");
+                }
+            }
+            table.insert((vzone::hname(qn), RecordType::from(t)), m);
+        }
+    }
+    let dnskey = dnskey_response(world);
+    let origin = world.origin.clone();
+    let table = Arc::new(table);
+    let t2 = table.clone();
+    let up = Upstream::new(move |q: &Query| {
+        if q.query_type == RecordType::DNSKEY && q.name == origin {
+            return Some(dnskey.clone());
+        }
+        t2.get(&(q.name.clone(), q.query_type)).cloned()
+    });
+    let handle = vzone::validator(up, world.anchors(), None);
+    let hasher = |x: &Name| world.hash(x);
+    for (qn, t, class) in todo {
+        l.eval();
+        let e = vzone::validate_with(rt, &handle, Query::new(vzone::hname(&qn), RecordType::from(t)));
+        if e.is_secure() {
+            l.outcome(&format!("complete:{class}"));
+            l.nontrivial(fnv_str(&format!("complete|{}|{qn}|{t}", world.text)));
+            continue;
+        }
+        let m = &table[&(vzone::hname(&qn), RecordType::from(t))];
+        let name = Name::parse(&qn);
+        let attached: Vec<Nsec3Rec> = m
+            .authorities
+            .iter()
+            .filter_map(|r| match &r.data {
+                hickory_proto::rr::RData::DNSSEC(hickory_proto::dnssec::rdata::DNSSECRData::NSEC3(n)) => vzone::ref_nsec3(&world.origin, &r.name, n),
+                _ => None,
+            })
+            .collect();
+        let attached_refs: Vec<&Nsec3Rec> = attached.iter().collect();
+        let claim = match rz::step(zone, &name, t) {
+            Step::NxDomain { .. } => Claim::NxDomain,
+            Step::NoData(_) => Claim::NoData,
+            Step::Data { source, rtype, .. } => Claim::Wildcard { source, rtype },
+            Step::Cname { source, .. } => Claim::Wildcard { source, rtype: rz::T_CNAME },
+            _ => Claim::NoData,
+        };
+        let valid = dn::nsec3_proves_with(&attached_refs, &world.apex, &name, t, &claim, &|_| false, &hasher);
+        let has_soa = m.authorities.iter().any(|r| r.record_type() == RecordType::SOA);
+        let star = name.0.iter().any(|l| l.as_slice() == b"*");
+        let depth = name.num_labels() - zone.closest_encloser_or_self(&name).num_labels();
+        let key = format!(
+            "incomplete:{class}:{}:{}:{}{}{}",
+            e.class(),
+            match valid {
+                Proof3::Yes => "validator-rejects-valid-proof",
+                Proof3::OptOut => "proof-relies-on-optout-cover",
+                Proof3::No => "server-proof-insufficient",
+            },
+            if has_soa { "soa" } else { "nosoa" },
+            if star { "+star" } else { "" },
+            if depth >= 2 { "+ce-above-parent" } else { "" },
+        ) + if t == rz::T_DS { ":t=DS" } else { "" };
+        l.violation(&key, &format!("the server's own DO=1 answer for {qn} {} ({class}) is not accepted as Secure by the validator: {}", rz::type_name(t), e.class()), || {
+            json!({"level": "completeness", "zone": world.spec.to_json(), "signing": world.signing.tag(), "world": world.text,
+                   "qname": qn, "qtype": t, "qtype_name": rz::type_name(t),
+                   "authority": m.authorities.iter().filter(|r| r.record_type() != RecordType::RRSIG).map(|r| format!("{} {} {}", r.name, r.record_type(), r.data)).collect::<Vec<_>>()})
+        });
+    }
+}
+
+// ------------------------------------------------------------------------------------------
+// parameter mixtures, wrong-zone owners, iteration limits
+
+/// Subsets that mix records of the same zone signed under two parameter sets, and records whose
+/// owner was moved below another name, must never give Secure.
+fn mixtures(spec: &ZoneSpec, a: &World, b: &World, l: &mut Local) {
+    let na = a.recs.len().min(4);
+    let nb = b.recs.len().min(4);
+    for qn in &a.qnames {
+        let qname = Name::parse(qn);
+        if !qname.at_or_below(&a.apex) {
+            continue;
+        }
+        let hq = vzone::hname(qn);
+        for t in [rz::T_A, rz::T_DS] {
+            let query = Query::new(hq.clone(), RecordType::from(t));
+            for claim in [Claim::NxDomain, Claim::NoData] {
+                for ma in 1u32..(1 << na) {
+                    for mb in 1u32..(1 << nb) {
+                        if ma.count_ones() + mb.count_ones() > 3 {
+                            continue;
+                        }
+                        let mut sub: Vec<(&HName, &NSEC3)> = (0..na).filter(|i| ma >> i & 1 == 1).map(|i| (&a.recs[i].0, &a.recs[i].1)).collect();
+                        sub.extend((0..nb).filter(|i| mb >> i & 1 == 1).map(|i| (&b.recs[i].0, &b.recs[i].1)));
+                        for soa in [Some(a.origin.clone()), None] {
+                            l.eval();
+                            let v = verify_nsec3(&query, soa.as_ref(), rcode_of(&claim), &[], &sub, SOFT, HARD);
+                            l.outcome(&format!("mixture:{}", format!("{v:?}").to_lowercase()));
+                            if v == Proof::Secure {
+                                l.violation(&format!("unsound:mixed-parameters:{}", claim.tag()), "a set of NSEC3 records with different salt/iterations gives Secure", || {
+                                    json!({"level": "mixture", "zone": spec.to_json(), "a": a.signing.tag(), "b": b.signing.tag(), "qname": qn, "qtype": t, "claim": claim_json(&claim), "ma": ma, "mb": mb})
+                                });
+                            }
+                        }
+                    }
+                }
+                // wrong zone: the same genuine records presented as `<hash>.o.` (another zone) with the zone's SOA
+                let moved: Vec<(HName, &NSEC3)> = a
+                    .recs
+                    .iter()
+                    .map(|(o, n, _)| {
+                        let first = o.iter().next().unwrap().to_vec();
+                        (HName::from_labels(vec![first, b"o".to_vec()]).unwrap(), n)
+                    })
+                    .collect();
+                let sub: Vec<(&HName, &NSEC3)> = moved.iter().map(|(o, n)| (o, *n)).collect();
+                l.eval();
+                let v = verify_nsec3(&query, Some(&a.origin), rcode_of(&claim), &[], &sub, SOFT, HARD);
+                l.outcome(&format!("wrong-zone:{}", format!("{v:?}").to_lowercase()));
+                if v == Proof::Secure {
+                    l.violation(&format!("unsound:wrong-zone-owner:{}", claim.tag()), "NSEC3 records owned by names outside the response's zone give Secure", || {
+                        json!({"level": "wrong-zone", "zone": spec.to_json(), "signing": a.signing.tag(), "qname": qn, "qtype": t, "claim": claim_json(&claim)})
+                    });
+                }
+            }
+        }
+    }
+}
+
+/// iterations 0..3 x (soft, hard) in {(1,2),(0,0),(2,2)}: above soft never Secure, above hard Bogus.
+fn iteration_limits(spec: &ZoneSpec, rt: &tokio::runtime::Runtime, l: &mut Local, cnt: &Counters) {
+    for it in 0u16..=3 {
+        let signing = Signing::Nsec3 { iterations: it, salt: vec![0xab], opt_out: false };
+        let Ok(w) = build_world(spec, &signing) else { continue };
+        let masks = w.masks();
+        for (soft, hard) in [(1u16, 2u16), (0, 0), (2, 2)] {
+            for qn in &w.qnames {
+                let qname = Name::parse(qn);
+                if !qname.at_or_below(&w.apex) {
+                    continue;
+                }
+                let hq = vzone::hname(qn);
+                for t in [rz::T_A, rz::T_DS] {
+                    let query = Query::new(hq.clone(), RecordType::from(t));
+                    for claim in w.claims(&qname, t) {
+                        let answers = w.expanded_answer(&claim, &hq, true);
+                        for &mask in &masks {
+                            let sub: Vec<(&HName, &NSEC3)> = (0..w.recs.len()).filter(|i| mask >> i & 1 == 1).map(|i| (&w.recs[i].0, &w.recs[i].1)).collect();
+                            l.eval();
+                            let v = verify_nsec3(&query, Some(&w.origin), rcode_of(&claim), &answers, &sub, soft, hard);
+                            let class = if it > hard { "above-hard" } else if it > soft { "above-soft" } else { "within" };
+                            l.outcome(&format!("limits:{class}:{}", format!("{v:?}").to_lowercase()));
+                            let bad = if it > hard && v != Proof::Bogus {
+                                Some(format!("iterations:above-hard-limit:not-bogus:{}", format!("{v:?}").to_lowercase()))
+                            } else if it > soft && v == Proof::Secure {
+                                Some("iterations:above-soft-limit:secure".to_string())
+                            } else {
+                                None
+                            };
+                            let full = mask == *masks.last().unwrap();
+                            if bad.is_some() || (full && fnv_str(&format!("{}|{qn}|{t}|{claim:?}|{soft}", w.text)) % 8 == 0) {
+                                // the same configuration through the real handle
+                                let e = e2e_case(&w, rt, &query, &Some(w.origin.clone()), &claim, mask, Some((soft, hard)));
+                                cnt.bound.fetch_add(1, Ordering::Relaxed);
+                                if !e2e_agrees(v, &e) {
+                                    l.violation(
+                                        &format!("binding:limits:hook={}:e2e={}", format!("{v:?}").to_lowercase(), e.class()),
+                                        "iteration limits: decision-level verdict and real handle differ",
+                                        || json!({"level": "limits", "zone": spec.to_json(), "iterations": it, "soft": soft, "hard": hard, "qname": qn, "qtype": t, "claim": claim_json(&claim), "mask": mask}),
+                                    );
+                                } else {
+                                    l.outcome(&format!("bound:limits:{}", e.class()));
+                                }
+                            }
+                            if let Some(k) = bad {
+                                l.violation(&k, &format!("iterations={it} soft={soft} hard={hard}: verdict {v:?}"), || {
+                                    json!({"level": "limits", "zone": spec.to_json(), "iterations": it, "soft": soft, "hard": hard, "qname": qn, "qtype": t, "claim": claim_json(&claim), "mask": mask})
+                                });
+                            }
+                        }
+                    }
+                }
+            }
+        }
+    }
+}
+
+// ------------------------------------------------------------------------------------------
+
+fn run_world(world: &World, rt: &tokio::runtime::Runtime, l: &mut Local, cnt: &Counters, sample: bool) {
+    check_chain(world, l);
+    let masks = world.masks();
+    if world.recs.len() > 7 {
+        l.outcome("subsets-capped-at-size-3");
+    }
+    // do the hash order and the canonical name order differ for the names of this zone?
+    {
+        let mut names: Vec<Name> = world.rz.nodes.keys().filter(|n| n.at_or_below(&world.apex)).cloned().collect();
+        names.sort();
+        let by_hash: Vec<Vec<u8>> = names.iter().map(|n| world.hash(n)).collect();
+        let mut sorted = by_hash.clone();
+        sorted.sort();
+        l.outcome(if sorted != by_hash { "zone:hash-order-differs-from-name-order" } else { "zone:hash-order-equals-name-order" });
+    }
+    for qn in &world.qnames {
+        let name = Name::parse(qn);
+        for t in QTYPES {
+            for claim in world.claims(&name, t) {
+                run_claim(world, qn, t, &claim, None, &masks, rt, l, cnt);
+            }
+        }
+    }
+    completeness(world, rt, l, None);
+    if sample {
+        l.sample(json!({"world": world.text, "nsec3s": describe(world, (1u32 << world.recs.len()) - 1), "qnames": world.qnames.len(), "subsets": masks.len()}));
+    }
+}
+
+fn signings_for(spec: &ZoneSpec) -> Vec<Signing> {
+    let mut v = vec![
+        Signing::Nsec3 { iterations: 0, salt: vec![], opt_out: false },
+        Signing::Nsec3 { iterations: 1, salt: vec![0xab], opt_out: false },
+    ];
+    if spec.owners.iter().any(|(_, k)| matches!(k, Kind::Ns | Kind::NsGlue)) {
+        v.push(Signing::Nsec3 { iterations: 0, salt: vec![], opt_out: true });
+        v.push(Signing::Nsec3 { iterations: 1, salt: vec![0xab], opt_out: true });
+    }
+    v
+}
+
+fn main() {
+    let ctx = Ctx::from_args("C09", "exploration");
+    let thorough = !ctx.quick();
+
+    let mut bad = rz::self_test();
+    bad.extend(dn::self_test());
+    if !bad.is_empty() {
+        for b in &bad {
+            eprintln!("reference self-test failed: {b}");
+        }
+        vcore::machinery_exit("vref::zone / vref::denial self-test against the RFC examples failed");
+    }
+    let cnt = Counters { bound: AtomicU64::new(0) };
+
+    if let Some((_key, case)) = ctx.replay_case() {
+        let spec = ZoneSpec::from_json(&case["zone"]).unwrap_or_else(|| vcore::machinery_exit("replay without zone"));
+        let rt = vsim::rt();
+        ctx.with_local(|l| match case["level"].as_str() {
+            Some("limits") => iteration_limits(&spec, &rt, l, &cnt),
+            Some("mixture") | Some("wrong-zone") => {
+                let a = build_world(&spec, &Signing::from_tag(case["a"].as_str().or(case["signing"].as_str()).unwrap_or("nsec3:i0:s-:noopt")).unwrap()).unwrap();
+                let b = build_world(&spec, &Signing::from_tag(case["b"].as_str().unwrap_or("nsec3:i1:sab:noopt")).unwrap()).unwrap();
+                mixtures(&spec, &a, &b, l);
+            }
+            level => {
+                let signing = Signing::from_tag(case["signing"].as_str().unwrap_or("nsec3:i0:s-:noopt")).unwrap_or_else(|| vcore::machinery_exit("bad signing tag"));
+                let world = build_world(&spec, &signing).unwrap_or_else(|e| vcore::machinery_exit(&e));
+                match level {
+                    Some("chain") => check_chain(&world, l),
+                    Some("completeness") => {
+                        let q = case["qname"].as_str().unwrap_or("z.").to_string();
+                        completeness(&world, &rt, l, Some((&q, case["qtype"].as_u64().unwrap_or(1) as u16)));
+                    }
+                    _ => {
+                        let claim = claim_from_json(&case["claim"]);
+                        let qtype = case["qtype"].as_u64().unwrap_or(1) as u16;
+                        let soa = case["soa"].as_str().map(vzone::hname);
+                        let mask = case["mask"].as_u64().unwrap_or(1) as u32;
+                        run_claim(&world, case["qname"].as_str().unwrap_or("z."), qtype, &claim, Some((soa, mask)), &[mask], &rt, l, &cnt);
+                    }
+                }
+            }
+        });
+        ctx.finish(false);
+    }
+
+    ctx.set_rule(
+        "every zone of the universe (apex + <=K owners of U(d), labels {a,b,*}; kinds A, TXT, A+TXT, CNAME->{a.z.,a.a.z.}, NS, NS+glue, NS+DS; quick d=2,K<=2; \
+         thorough adds d=2,K=3 and d=3,K<=2 over 6 kinds) signed by the real nsec3_zone with (iterations,salt) in {(0,-),(1,ab)}, opt-out off and (zones with an \
+         insecure delegation) on; x every qname of {apex, U(3), x.o., names below cuts} x qtype {A,TXT,DS,NS,CNAME} x claim {NXDOMAIN, NODATA, expansion of each \
+         published wildcard RRset} x soa {apex, absent} x EVERY non-empty subset of the zone's NSEC3 records (>7 records: subsets of size <=3) -> verify_nsec3; \
+         oracle: Secure => claim true in the zone (vref::denial::truth) and the subset is the RFC 5155 section 8 proof with opt-out only for DS (nsec3_proves). \
+         Plus parameter mixtures / wrong-zone owners (never Secure), iterations 0..3 x limits {(1,2),(0,0),(2,2)}, completeness of every negative/wildcard DO=1 \
+         server answer through the real DnssecDnsHandle. Non-trivial = distinct cases with a false claim, or an accepted proof of >= 2 records, plus each completeness case.",
+    );
+    ctx.assume("vref::zone + vref::denial (self-tested on every run against RFC 4592, RFC 4034 6.1, RFC 4035 app. A/B, RFC 5155 app. A hash vectors and app. B)");
+    ctx.assume("the attacker only has genuine signed records of the zone (forged signatures are C06's business); SHA-1 and Ed25519 via ring; no hash collisions among the <= 60 names involved");
+    ctx.assume("completeness is judged only where the server's answer has the shape the reference lookup expects (C10 owns the other cases)");
+
+    let kinds8 = [Kind::A, Kind::Txt, Kind::ATxt, Kind::CnameA, Kind::CnameAA, Kind::Ns, Kind::NsGlue, Kind::NsDs];
+    let kinds6 = [Kind::A, Kind::ATxt, Kind::CnameA, Kind::Ns, Kind::NsGlue, Kind::NsDs];
+    let mut specs: Vec<ZoneSpec> = vzone::family("z.", &vzone::universe(2), 2, &kinds8);
+    if thorough {
+        specs.extend(vzone::family("z.", &vzone::universe(2), 3, &kinds6).into_iter().filter(|s| s.owners.len() == 3));
+        specs.extend(vzone::family("z.", &vzone::universe(3), 2, &kinds6).into_iter().filter(|s| s.owners.iter().any(|(o, _)| o.matches('.').count() == 4)));
+    }
+    let mut jobs: Vec<(usize, Signing)> = vec![];
+    for (i, s) in specs.iter().enumerate() {
+        for sg in signings_for(s) {
+            jobs.push((i, sg));
+        }
+    }
+    ctx.set("zones", json!(specs.len()));
+    ctx.set("signed_worlds", json!(jobs.len()));
+
+    let n = jobs.len() as u64;
+    let stride = (n / 10).max(1);
+    ctx.case_timeout_s.store(600, Ordering::Relaxed);
+    ctx.par_run_init(
+        n,
+        1,
+        |_| vsim::rt(),
+        |i, l, rt| {
+            let (si, sg) = &jobs[i as usize];
+            match build_world(&specs[*si], sg) {
+                Ok(w) => run_world(&w, rt, l, &cnt, i % stride == 0 || i == n - 1),
+                Err(e) => l.violation("zone-build-failed", &e, || json!({"zone": specs[*si].to_json(), "signing": sg.tag()})),
+            }
+        },
+    );
+
+    // parameter mixtures and wrong-zone owners: zones with <= 1 owner (quick) / <= 2 owners, every 3rd (thorough)
+    let mix: Vec<&ZoneSpec> = specs.iter().enumerate().filter(|(i, s)| s.owners.len() <= 1 || (thorough && s.owners.len() == 2 && i % 3 == 0)).map(|(_, s)| s).collect();
+    ctx.set("mixture_zones", json!(mix.len()));
+    ctx.par_run(mix.len() as u64, 1, |i, l| {
+        let s = mix[i as usize];
+        let a = build_world(s, &Signing::Nsec3 { iterations: 0, salt: vec![], opt_out: false });
+        let b = build_world(s, &Signing::Nsec3 { iterations: 1, salt: vec![0xab], opt_out: false });
+        let c = build_world(s, &Signing::Nsec3 { iterations: 1, salt: vec![], opt_out: false });
+        if let (Ok(a), Ok(b), Ok(c)) = (a, b, c) {
+            mixtures(s, &a, &b, l);
+            mixtures(s, &b, &c, l); // same iterations, different salt
+        }
+    });
+
+    // iteration limits: zones with <= 1 owner
+    let lim: Vec<&ZoneSpec> = specs.iter().filter(|s| s.owners.len() <= 1).collect();
+    ctx.set("limit_zones", json!(lim.len()));
+    ctx.par_run_init(lim.len() as u64, 1, |_| vsim::rt(), |i, l, rt| iteration_limits(lim[i as usize], rt, l, &cnt));
+
+    ctx.set("traces_validated_against_impl", json!(cnt.bound.load(Ordering::Relaxed)));
+    if ctx.outcome_count("reference-inconsistent") > 0 {
+        ctx.machinery_failure("vref::denial is inconsistent: nsec3_proves accepted a claim that truth() calls false (see stderr)");
+    }
+    let mut need: BTreeMap<&str, &str> = BTreeMap::new();
+    need.insert("verdict:NXDOMAIN:secure:true-claim", "no true NXDOMAIN was ever accepted");
+    need.insert("verdict:NODATA:secure:true-claim", "no true NODATA was ever accepted");
+    need.insert("verdict:WILDCARD:secure:true-claim", "no true wildcard expansion was ever accepted");
+    need.insert("verdict:NXDOMAIN:bogus:false-claim", "no false NXDOMAIN was ever rejected");
+    need.insert("verdict:NODATA:bogus:false-claim", "no false NODATA was ever rejected");
+    need.insert("complete:NXDOMAIN", "no server NXDOMAIN proof was accepted end to end");
+    need.insert("complete:NODATA-other", "no server NODATA proof was accepted end to end");
+    need.insert("bound:secure", "no Secure decision was replayed end to end");
+    need.insert("chain:as-rfc5155", "no chain matched the reference chain");
+    need.insert("mixture:bogus", "no parameter mixture was exercised");
+    need.insert("limits:above-hard:bogus", "the hard iteration limit was never exceeded");
+    need.insert("limits:above-soft:insecure", "the soft iteration limit was never exceeded");
+    need.insert("limits:within:secure", "no proof within the limits was accepted");
+    need.insert("zone:hash-order-differs-from-name-order", "no zone whose hash order differs from its name order");
+    for (class, why) in need {
+        if ctx.outcome_count(class) == 0 {
+            ctx.machinery_failure(&format!("vacuous run: {why} ({class})"));
+        }
+    }
+    ctx.finish(true);
+}
